@@ -66,6 +66,10 @@ var $callDeferred = (deferred, jsErr, fromPanic) => {
                     deferred = null;
                     continue;
                 }
+                if ($curGoroutine.exit) {
+                    /* runtime.Goexit() is terminating the goroutine: keep unwinding into the callers. */
+                    throw null;
+                }
                 return;
             }
             var r = call[0].apply(call[2], call[1]);
